@@ -168,3 +168,39 @@ func checkAliasQualifiers(c *Ctx, rule string, ev *tmpl.Evaluator) {
 		}
 	}
 }
+
+var rxParamMethod = regexp.MustCompile(`func \(⟦[^⟧]*ReceiverName\s*⟧ [^)]*\) \w*⟦pascalize \$?\.(Name|ID)\s*⟧\w*\(`)
+
+// checkParamMethodNames: a method generated once per parameter of an operation is named after
+// the parameter's `.ID`, which the generator makes unique within the operation (two parameters
+// may share a `.Name` when they sit in different locations: `ids` in query and in header).
+func checkParamMethodNames(c *Ctx, rule string, ev *tmpl.Evaluator) {
+	c.Rule(rule, "a method declared inside a range over the parameters of an operation is named after .ID, never .Name", 4)
+	n := 0
+	for _, name := range ev.F.Names() {
+		t := ev.F.Trees[name]
+		if t == nil || t.Tree == nil || t.Tree.Root == nil || strings.HasPrefix(t.Asset, "contrib/") {
+			continue
+		}
+		l := tmpl.Linearise(t)
+		for _, m := range rxParamMethod.FindAllStringSubmatchIndex(l.Text, -1) {
+			inParams := false
+			for _, g := range l.GuardsAt(m[0]) {
+				if g.Kind == "range" && strings.HasSuffix(strings.TrimSpace(g.Pipe), "Params") {
+					inParams = true
+				}
+			}
+			if !inParams {
+				continue
+			}
+			n++
+			which := l.Text[m[2]:m[3]]
+			sig := l.Text[m[0]:m[1]]
+			c.Check(which == "ID", rule, fmt.Sprintf("%s › %s › %s", t.Asset, name, strings.NewReplacer("⟦", "{{", "⟧", "}}").Replace(sig[strings.Index(sig, ") ")+2:])), l.Tree.PosStr(l.PosAt(m[0])), "named after .ID",
+				"the method is declared once per parameter and named after the parameter's .Name: two parameters of one operation that share a name in different locations (`ids` in query and in header) declare it twice and the generated package does not build")
+		}
+	}
+	if n == 0 {
+		c.Anchor(rule, "templates › methods declared per parameter", "none found")
+	}
+}
